@@ -246,6 +246,24 @@ def run(chk):
             chk.add("C10.S", key, v, d, where=where_of(ts[k]))
     # ------------------------------------------------------------------ C10.W counts on small windows
     bdd_windows(chk, env)
+    # ------------------------------------------------------------------ C10.X canonizations on small windows
+    from .C04 import canon_plans, canon_eval, CANON_METHOD
+    for which, n, window in canon_plans(chk.tier):
+        key = "%s n=%d, table bits %s symbolic: same table and certificate from both types" % (CANON_METHOD[which], n, "all" if len(window) == 1 << n else list(window))
+        try:
+            rd, rs_ = canon_eval(env, "dyn", which, n, window), canon_eval(env, "static", which, n, window)
+            v, d = PROVED, ""
+            for r_ in range(1 << len(window)):
+                if rd[r_] != rs_[r_]:
+                    f_ = sum(((r_ >> j) & 1) << p_ for j, p_ in enumerate(window))
+
+                    def show(x):
+                        return "panic (%s)" % x[1] if x[0] == "panic" else "table %#x perm %s mask %s" % (x[1], list(x[2]) if x[2] is not None else None, x[3])
+                    v, d = REFUTED, "for the table %#x Lut returns %s, LutN returns %s" % (f_, show(rd[r_]), show(rs_[r_]))
+                    break
+        except Undecided as e:
+            v, d = UNDECIDED, e.cause
+        chk.add("C10.X", key, v, d, where=where_of(env.kinds["static"].methods[CANON_METHOD[which]]))
     # ------------------------------------------------------------------ C10.C conversions
     for b, sty, tr in facts.trait_impl_methods("std::convert::"):
         label = "<%s as %s>::%s" % (sty["s"], tr["s"], b["name"])
